@@ -301,6 +301,13 @@ example :
     (LB.qrunOut {} ops).2 = [[], [], [], [1, 2, 3], [4], [5], [6]] := by
   decide
 
+-- F24 in the model: an empty slice (a fall-back event with an empty payload) between two data slices; ReadByte finds the byte
+example :
+    let m : LB.Mem := LB.Mem.create [(4, 2)]
+    let l : LB.LBuf := { sl := [{ heap := [65], cap := 1, wi := 1 }, { heap := [], cap := 0, wi := 0 }, { heap := [66], cap := 1, wi := 1 }], len := 2 }
+    ((l.readByte m).bind (fun (m1, l1, b1) => (l1.readByte m1).map (fun (_, l2, b2) => (b1, b2, l2.len)))) = some (65, 66, 0) := by
+  decide
+
 -- Close in the middle: b closes while a message is in flight towards it and it has composed bytes; a's own unread data stays
 example :
     let s0 : LB.PSys := { m := LB.Mem.create [(4, 4), (8, 4)] }
